@@ -1074,6 +1074,7 @@ fn gen_secp(t: &mut Tape) -> SecpCase {
 /// the independent implementations must reproduce every pinned vector of the repository (value or FAIL)
 pub fn calibrate() -> Result<usize, String> {
     rc::self_test()?;
+    crate::model::h2c::self_test()?;
     let mut n = 0;
     let files = [
         "test-bls-ops", "test-blspy-g1", "test-blspy-g2", "test-blspy-pairing", "test-blspy-verify", "test-blspy-hash", "test-bls-zk", "test-secp-verify", "test-secp256k1",
